@@ -229,7 +229,8 @@ func c09(tier string, args []string) int {
 		depth, seeds = 3, space.AllSeeds()
 		fams = append(stdFamilies(tier), famPEPOwn([]int8{space.Q, space.R, space.B, space.N}, "PEP(own piece)"), famPEP([]int8{space.P}, false, "PEP(extra=enemy pawn)"))
 	}
-	runFamilies(run, fams, nil, c09State)
+	// trees first: they carry the histories (do/undo, null moves, cached flags); under a time cap they are the part to keep
 	runTree(run, seeds, depth, nil, c09State)
+	runFamilies(run, fams, nil, c09State)
 	return run.Finish()
 }
